@@ -347,12 +347,27 @@ func (o *Optimizer) OptimizeStatements(stmts []ast.Statement) []ast.Statement {
 			if litExpr, ok := condition.(*ast.LiteralExpr); ok {
 				if boolLit, ok := litExpr.Value.(ast.BoolLiteral); ok {
 					// Constant condition - eliminate dead branch
+					taken := s.ElseBlock
 					if boolLit.Value {
 						// Condition is always true - use only then block
-						result = append(result, o.OptimizeStatements(s.ThenBlock)...)
+						taken = s.ThenBlock
+					}
+					optimizedTaken := o.OptimizeStatements(taken)
+					declared := declaredVariables(taken)
+					if len(declared) == 0 {
+						result = append(result, optimizedTaken...)
 					} else {
-						// Condition is always false - use only else block
-						result = append(result, o.OptimizeStatements(s.ElseBlock)...)
+						// The block declares variables, and they are local to it:
+						// spliced into the enclosing list they collided with a
+						// declaration of the same name there ("cannot redeclare")
+						// or stayed visible after the block. Keep the block.
+						result = append(result, &ast.IfStatement{
+							Condition: &ast.LiteralExpr{Value: ast.BoolLiteral{Value: true}},
+							ThenBlock: optimizedTaken,
+						})
+						for name := range declared {
+							o.forget(name)
+						}
 					}
 					continue
 				}
@@ -880,6 +895,21 @@ func exprToString(expr ast.Expr) string {
 		}
 	}
 	return ""
+}
+
+// declaredVariables returns the names a statement list declares at its own
+// level (`$ name = ...`), i.e. the variables that are local to it as a block.
+func declaredVariables(stmts []ast.Statement) map[string]bool {
+	declared := make(map[string]bool)
+	for _, stmt := range stmts {
+		switch s := stmt.(type) {
+		case *ast.AssignStatement:
+			declared[s.Target] = true
+		case ast.AssignStatement:
+			declared[s.Target] = true
+		}
+	}
+	return declared
 }
 
 // getModifiedVariables returns the set of variables modified by a list of statements
